@@ -5,10 +5,10 @@ import SJ.Proofs.LexBridge
 
 `fast_path` converts a mantissa `< 2^(mbits+1)` exactly, and multiplies or divides it by an exactly representable
 power of ten with one IEEE operation: the result is the correctly rounded value of `mantissa · 10^exponent`.
-The float operations are those of `Spec.Ieee` (binary64, through the bridge) and `Spec.Ieee32` (binary32).
+The float operations are those of `Spec.Ieee` (`F64.mul/div/ofU64`; `F32.mul/div` from `Spec/Ieee32.lean`).
 -/
 namespace SJ.Proofs.LexFast
-open SJ SJ.Gen SJ.Model.Lexical SJ.Spec.Ieee32 SJ.Proofs.LexIeee SJ.Proofs.LexRound SJ.Proofs.LexBh
+open SJ SJ.Gen SJ.Model.Lexical SJ.Spec.Ieee SJ.Proofs.Ieee SJ.Proofs.LexRound SJ.Proofs.LexBh
 
 /-- the IEEE format of the target -/
 def fmtOf (single : Bool) : Fmt := if single then b32 else b64
@@ -18,12 +18,12 @@ theorem fcokOf (single : Bool) : FCok (fc single) (fmtOf single) := by
   · exact fcok64
   · exact fcok32
 
-/-! ## binary32 operations (`Spec.Ieee32.F32`) on positive finite patterns -/
+/-! ## the rounding wrappers on positive values -/
 
 theorem roundOrInf32_toNat (n d : Nat) :
     (F32.roundOrInf false n d).toNat = clampInf b32 (roundMag b32 (n * 2 ^ b32.qexp) d) := by
   unfold F32.roundOrInf roundNE32 roundBits clampInf
-  have hinf : b32.infBits = 0x7f800000 := by decide
+  have hinf := SJ.Proofs.LexBridge.infBits32
   by_cases h : roundMag b32 (n * 2 ^ b32.qexp) d < b32.infBits
   · simp only [if_pos h, Bool.false_eq_true, if_false, Option.map_some, Option.getD_some]
     rw [UInt32.toNat_ofNat']
@@ -31,83 +31,16 @@ theorem roundOrInf32_toNat (n d : Nat) :
   · simp only [if_neg h, Option.map_none, Option.getD_none, F32.inf, Bool.false_eq_true, if_false]
     rw [hinf]; rfl
 
-theorem abs32 (a : Nat) (ha : a < b32.infBits) :
-    F32.isNeg (UInt32.ofNat a) = false ∧ F32.mag (UInt32.ofNat a) = magOfBits b32 a := by
-  have hinf : b32.infBits = 0x7f800000 := by decide
-  have h1 : (UInt32.ofNat a).toNat = a := by rw [UInt32.toNat_ofNat']; exact Nat.mod_eq_of_lt (by omega)
-  unfold F32.isNeg F32.mag F32.absBits
-  rw [h1]
-  have : a / 2 ^ 31 = 0 := Nat.div_eq_of_lt (by omega)
-  rw [this, Nat.mod_eq_of_lt (by omega)]
-  simp
-
-/-! ## binary64 operations (`Spec.Ieee.F64`, placeholder) on positive finite patterns -/
-
-theorem roundOrInf64_toNat (n d : Nat) (hd : 0 < d) :
-    ((SJ.Spec.Ieee.roundNE64 false n d).getD (SJ.Spec.Ieee.F64.inf false)).toNat =
-      clampInf b64 (roundMag b64 (n * 2 ^ b64.qexp) d) := by
-  rw [SJ.Proofs.LexBridge.roundNE64_bridge false n d hd]
-  unfold roundBits clampInf
-  have hinf : b64.infBits = 0x7ff0000000000000 := by decide
+theorem roundOrInf64_toNat (n d : Nat) :
+    (F64.roundOrInf false n d).toNat = clampInf b64 (roundMag b64 (n * 2 ^ b64.qexp) d) := by
+  unfold F64.roundOrInf roundNE64 roundBits clampInf
+  have hinf := SJ.Proofs.LexBridge.infBits64
   by_cases h : roundMag b64 (n * 2 ^ b64.qexp) d < b64.infBits
   · simp only [if_pos h, Bool.false_eq_true, if_false, Option.map_some, Option.getD_some]
     rw [UInt64.toNat_ofNat']
     exact Nat.mod_eq_of_lt (by rw [hinf] at h; omega)
-  · simp only [if_neg h, Option.map_none, Option.getD_none]
+  · simp only [if_neg h, Option.map_none, Option.getD_none, F64.inf, Bool.false_eq_true, if_false]
     rw [hinf]; rfl
-
-/-- the placeholder's `toRat` of a positive finite pattern is `magOfBits / 2^1074` -/
-theorem toRat64 (a : Nat) (ha : a < b64.infBits) :
-    SJ.Spec.Ieee.F64.isNeg (UInt64.ofNat a) = false ∧
-    0 < (SJ.Spec.Ieee.F64.toRat (UInt64.ofNat a)).2 ∧
-    (SJ.Spec.Ieee.F64.toRat (UInt64.ofNat a)).1 * 2 ^ 1074 = magOfBits b64 a * (SJ.Spec.Ieee.F64.toRat (UInt64.ofNat a)).2 := by
-  have hinf : b64.infBits = 0x7ff0000000000000 := by decide
-  have h1 : (UInt64.ofNat a).toNat = a := by rw [UInt64.toNat_ofNat']; exact Nat.mod_eq_of_lt (by omega)
-  have hE : SJ.Spec.Ieee.F64.expField (UInt64.ofNat a) = a / 2 ^ 52 := by
-    unfold SJ.Spec.Ieee.F64.expField
-    rw [UInt64.toNat_and, UInt64.toNat_shiftRight, h1]
-    have : (0x7ff : UInt64).toNat = 2 ^ 11 - 1 := by decide
-    have h52 : (52 : UInt64).toNat % 64 = 52 := by decide
-    rw [this, h52, Nat.and_two_pow_sub_one_eq_mod, Nat.shiftRight_eq_div_pow]
-    apply Nat.mod_eq_of_lt
-    rw [Nat.div_lt_iff_lt_mul (by norm_num)]; omega
-  have hM : SJ.Spec.Ieee.F64.mantField (UInt64.ofNat a) = a % 2 ^ 52 := by
-    unfold SJ.Spec.Ieee.F64.mantField
-    rw [UInt64.toNat_and, h1]
-    have : (0xfffffffffffff : UInt64).toNat = 2 ^ 52 - 1 := by decide
-    rw [this, Nat.and_two_pow_sub_one_eq_mod]
-  refine ⟨?_, ?_⟩
-  · unfold SJ.Spec.Ieee.F64.isNeg
-    have : (UInt64.ofNat a >>> 63).toNat = 0 := by
-      rw [UInt64.toNat_shiftRight, h1]
-      have h63 : (63 : UInt64).toNat % 64 = 63 := by decide
-      rw [h63, Nat.shiftRight_eq_div_pow]
-      exact Nat.div_eq_of_lt (by omega)
-    have h0 : UInt64.ofNat a >>> 63 = 0 := UInt64.toNat_inj.1 (by rw [this]; rfl)
-    rw [h0]; decide
-  · unfold SJ.Spec.Ieee.F64.toRat magOfBits
-    simp only [hE, hM]
-    have hmb : b64.mbits = 52 := rfl
-    rw [hmb]
-    have hElt : a / 2 ^ 52 < 2047 := by
-      rw [Nat.div_lt_iff_lt_mul (by norm_num)]; omega
-    generalize a / 2 ^ 52 = E at *
-    generalize a % 2 ^ 52 = M at *
-    by_cases h0 : E = 0
-    · subst h0
-      simp only [beq_self_eq_true, if_true]
-      simp
-    · have hb : (E == 0) = false := by simpa using h0
-      simp only [hb, Bool.false_eq_true, if_false, h0]
-      by_cases hge : E ≥ 1075
-      · simp only [if_pos hge, Nat.mul_one]
-        refine ⟨Nat.one_pos, ?_⟩
-        have : E - 1075 + 1074 = E - 1 := by omega
-        rw [Nat.mul_assoc, ← Nat.pow_add, this]
-      · simp only [if_neg hge]
-        refine ⟨Nat.pos_of_ne_zero (by simp), ?_⟩
-        have : E - 1 + (1075 - E) = 1074 := by omega
-        rw [Nat.mul_assoc, ← Nat.pow_add, this]
 
 /-! ## the three operations of the fast path, for both formats -/
 
@@ -115,7 +48,7 @@ theorem cast_eq (single : Bool) (n : Nat) :
     castU64 single n = clampInf (fmtOf single) (roundMag (fmtOf single) (n * 2 ^ (fmtOf single).qexp) 1) := by
   cases single
   · simp only [castU64, fmtOf, Bool.false_eq_true, if_false]
-    exact roundOrInf64_toNat n 1 Nat.one_pos
+    exact roundOrInf64_toNat n 1
   · simp only [castU64, fmtOf, if_true]
     exact roundOrInf32_toNat n 1
 
@@ -125,30 +58,20 @@ theorem fmul_eq (single : Bool) (a b : Nat) (ha : a < (fmtOf single).infBits) (h
       (2 ^ (fmtOf single).qexp * 2 ^ (fmtOf single).qexp)) := by
   cases single
   · simp only [fmul, fmtOf, Bool.false_eq_true, if_false] at ha hb ⊢
-    obtain ⟨n1, p1, r1⟩ := toRat64 a ha
-    obtain ⟨n2, p2, r2⟩ := toRat64 b hb
-    unfold SJ.Spec.Ieee.F64.mul
-    simp only [n1, n2, bne_self_eq_false]
-    rw [roundOrInf64_toNat _ _ (Nat.mul_pos p1 p2)]
-    refine congrArg (clampInf b64) ?_
-    have hq : b64.qexp = 1074 := by decide
+    obtain ⟨_, s1, _, m1, n1, i1⟩ := SJ.Proofs.LexBridge.pos64 a ha
+    obtain ⟨_, s2, _, m2, n2, i2⟩ := SJ.Proofs.LexBridge.pos64 b hb
+    unfold F64.mul
+    simp only [s1, s2, m1, m2, n1, n2, i1, i2, bne_self_eq_false, Bool.or_self, Bool.false_eq_true, if_false]
+    rw [roundOrInf64_toNat]
+    have hq : b64.qexp = 1074 := SJ.Proofs.Ieee.b64_qexp
     rw [hq]
-    apply roundMag_congr _ _ _ _ _ (Nat.mul_pos p1 p2) (Nat.mul_pos (pow_pos' _) (pow_pos' _))
-    generalize (SJ.Spec.Ieee.F64.toRat (UInt64.ofNat a)).1 = x1 at *
-    generalize (SJ.Spec.Ieee.F64.toRat (UInt64.ofNat a)).2 = y1 at *
-    generalize (SJ.Spec.Ieee.F64.toRat (UInt64.ofNat b)).1 = x2 at *
-    generalize (SJ.Spec.Ieee.F64.toRat (UInt64.ofNat b)).2 = y2 at *
-    calc x1 * x2 * 2 ^ 1074 * (2 ^ 1074 * 2 ^ 1074) = (x1 * 2 ^ 1074) * (x2 * 2 ^ 1074) * 2 ^ 1074 := by ring
-      _ = (magOfBits b64 a * y1) * (magOfBits b64 b * y2) * 2 ^ 1074 := by rw [r1, r2]
-      _ = magOfBits b64 a * magOfBits b64 b * 2 ^ 1074 * (y1 * y2) := by ring
   · simp only [fmul, fmtOf, if_true] at ha hb ⊢
-    obtain ⟨n1, m1⟩ := abs32 a ha
-    obtain ⟨n2, m2⟩ := abs32 b hb
+    obtain ⟨_, s1, _, m1, _⟩ := SJ.Proofs.LexBridge.pos32 a ha
+    obtain ⟨_, s2, _, m2, _⟩ := SJ.Proofs.LexBridge.pos32 b hb
     unfold F32.mul
-    simp only [n1, n2, m1, m2, bne_self_eq_false]
+    simp only [s1, s2, m1, m2, bne_self_eq_false]
     rw [roundOrInf32_toNat]
-    have hq : b32.qexp = 149 := by decide
-    rw [hq]
+    rfl
 
 theorem fdiv_eq (single : Bool) (a b : Nat) (ha : a < (fmtOf single).infBits) (hb : b < (fmtOf single).infBits)
     (hb0 : 0 < magOfBits (fmtOf single) b) :
@@ -156,33 +79,21 @@ theorem fdiv_eq (single : Bool) (a b : Nat) (ha : a < (fmtOf single).infBits) (h
       (magOfBits (fmtOf single) a * 2 ^ (fmtOf single).qexp) (magOfBits (fmtOf single) b)) := by
   cases single
   · simp only [fdiv, fmtOf, Bool.false_eq_true, if_false] at ha hb hb0 ⊢
-    obtain ⟨n1, p1, r1⟩ := toRat64 a ha
-    obtain ⟨n2, p2, r2⟩ := toRat64 b hb
-    unfold SJ.Spec.Ieee.F64.div
-    simp only [n1, n2, bne_self_eq_false]
-    have hx2 : 0 < (SJ.Spec.Ieee.F64.toRat (UInt64.ofNat b)).1 := by
-      by_contra hc
-      have : (SJ.Spec.Ieee.F64.toRat (UInt64.ofNat b)).1 = 0 := by omega
-      rw [this] at r2
-      have := Nat.mul_pos hb0 p2
-      omega
-    rw [roundOrInf64_toNat _ _ (Nat.mul_pos p1 hx2)]
-    refine congrArg (clampInf b64) ?_
-    have hq : b64.qexp = 1074 := by decide
-    rw [hq]
-    apply roundMag_congr _ _ _ _ _ (Nat.mul_pos p1 hx2) hb0
-    generalize (SJ.Spec.Ieee.F64.toRat (UInt64.ofNat a)).1 = x1 at *
-    generalize (SJ.Spec.Ieee.F64.toRat (UInt64.ofNat a)).2 = y1 at *
-    generalize (SJ.Spec.Ieee.F64.toRat (UInt64.ofNat b)).1 = x2 at *
-    generalize (SJ.Spec.Ieee.F64.toRat (UInt64.ofNat b)).2 = y2 at *
-    calc x1 * y2 * 2 ^ 1074 * magOfBits b64 b = (x1 * 2 ^ 1074) * (magOfBits b64 b * y2) := by ring
-      _ = (magOfBits b64 a * y1) * (x2 * 2 ^ 1074) := by rw [r1, r2]
-      _ = magOfBits b64 a * 2 ^ 1074 * (y1 * x2) := by ring
+    obtain ⟨_, s1, _, m1, n1, i1⟩ := SJ.Proofs.LexBridge.pos64 a ha
+    obtain ⟨_, s2, ab2, m2, n2, i2⟩ := SJ.Proofs.LexBridge.pos64 b hb
+    have hz : F64.isZero (UInt64.ofNat b) = false := by
+      unfold F64.isZero
+      rw [ab2, beq_eq_false_iff_ne]
+      intro h0; subst h0
+      simp [magOfBits] at hb0
+    unfold F64.div
+    simp only [s1, s2, m1, m2, n1, n2, i1, i2, hz, bne_self_eq_false, Bool.or_self, Bool.false_eq_true, if_false]
+    rw [roundOrInf64_toNat]
   · simp only [fdiv, fmtOf, if_true] at ha hb ⊢
-    obtain ⟨n1, m1⟩ := abs32 a ha
-    obtain ⟨n2, m2⟩ := abs32 b hb
+    obtain ⟨_, s1, _, m1, _⟩ := SJ.Proofs.LexBridge.pos32 a ha
+    obtain ⟨_, s2, _, m2, _⟩ := SJ.Proofs.LexBridge.pos32 b hb
     unfold F32.div
-    simp only [n1, n2, m1, m2, bne_self_eq_false]
+    simp only [s1, s2, m1, m2, bne_self_eq_false]
     rw [roundOrInf32_toNat]
 
 /-! ## exactly representable integers -/
